@@ -217,14 +217,19 @@ void sqf::fileio::impl_default::add_pbo_mapping(rvutils::pbo::pbofile& pbo)
     }
 
     m_pbos[pbo.path().lexically_normal().string()] = pbo;
-    std::filesystem::path prefix(*prefix_optional);
+    // PBO prefixes and entry names use '\\' as separator, which std::filesystem::path only splits on Windows
+    auto prefix_string = *prefix_optional;
+    std::replace(prefix_string.begin(), prefix_string.end(), '\\', '/');
+    std::filesystem::path prefix(prefix_string);
 
 
     // We need to register all files with the virtual pathing
     for (auto& file_desc : pbo.files())
     {
         // Construct file path
-        auto file_path = (prefix / file_desc.name).lexically_normal();
+        auto entry_name = file_desc.name;
+        std::replace(entry_name.begin(), entry_name.end(), '\\', '/');
+        auto file_path = (prefix / entry_name).lexically_normal();
         auto path_iter = file_path.begin();
 
         // Navigate to last available virtual file node from root node
